@@ -8,7 +8,40 @@ BASELINE_OFF = ("cd /repo && env -u VALJEAN_VERIF /venv/bin/python -m pytest -ra
                 "--continue-on-collection-errors")
 
 # pid -> dict(engine, category, text, note, technique, design_ref)
+_SCHED_NOTE = ('context switches only at lock acquisitions / blocking operations (Lipton reduction: every shared access of the backend is '
+               'under the environment lock, the queue or the condition variable, or is one GIL-atomic dict operation); logical clock; '
+               'logging disabled; probe tasks; TLC, the TLA+ value parser and the deterministic scheduler are trusted')
 CHECKS = {
+    'C01': dict(engine='Sched', category='model_checking', design_ref='DESIGN.md §4 C01',
+                text='Sched.tla models master and workers of the queue backend at the grain of their synchronisation points; TLC explores every '
+                     'interleaving for all 2- and 3-task hard/soft graphs x outcomes x initial environments x 1-3 workers and checks that what a '
+                     'task reads at the first instruction of do() is final and completely published (history variable seen). Bound to the code: '
+                     'simulated TLC behaviours are forced step by step on the real Scheduler under a deterministic scheduler with state '
+                     'comparison, and random/PCT/DFS schedules of the real code (up to 5 tasks, 4 workers) are validated by TLC (SchedTrace).',
+                note=_SCHED_NOTE, technique='TLA+ spec of the scheduler + TLC exhaustive interleavings; replay into the real threads code under a '
+                'deterministic scheduler; TLC trace validation (strict + observer)'),
+    'C02': dict(engine='Sched', category='model_checking', design_ref='DESIGN.md §4 C02',
+                text='Same model; invariants: at return every task has the status given by the recursive definition Expected (SKIPPED iff a hard '
+                     'dependency is expected FAILED/SKIPPED, else DONE/FAILED by its own result, malformed results = FAILED), executed at most '
+                     'once, exactly once unless skipped, no foreign update applied, soft failures never skip; checked by TLC for every '
+                     'interleaving and on every recorded execution of the real scheduler.',
+                note=_SCHED_NOTE, technique='TLA+ spec + TLC; replay; TLC trace validation of real schedules'),
+    'C03': dict(engine='Sched', category='model_checking', design_ref='DESIGN.md §4 C03',
+                text='Same model including cyclic graphs, pre-populated initial environments (DONE/FAILED/SKIPPED) and malformed results: TLC '
+                     'deadlock freedom, C03_Clean (queue empty and all workers exited when the call comes back), liveness <>Terminated under weak '
+                     'fairness; on the code: deadlock / leak / step-bound detection under the deterministic scheduler for every explored '
+                     'schedule, plus real-thread driver processes that must exit by themselves.',
+                note=_SCHED_NOTE + '; one wall-clock assertion (driver process exits within 60 s, expected < 1 s)',
+                technique='TLA+ spec + TLC (safety, deadlock, liveness); deterministic-scheduler exploration of the real code; trace validation'),
+    'C04': dict(engine='Runs', category='model_checking', design_ref='DESIGN.md §4 C04',
+                text='Runs.tla models histories of runs (merge of persisted DONE entries, master passes with the decision function on logical '
+                     'clocks, executions, write-back of every entry with an output directory) with faults between runs (fail/recover, lost file, '
+                     'added task); TLC checks C04_Fresh and C04_NoNeedlessRerun over all 3-task graphs x histories of 3-4 runs. Bound to the code: '
+                     'fault histories of simulated behaviours and seeded random histories (up to 6 tasks, 5 runs, 1-3 workers, random schedules) '
+                     'run through the real read_env/schedule/write_env cycle with real pickle files and validated by TLC (RunsTrace).',
+                note='runs executed under the deterministic scheduler with a logical clock continuing across runs; schedules inside a run are '
+                     'random (exhaustive interleavings are C01-C03); tasks without output directory are legitimately re-executed every run',
+                technique='TLA+ spec of run histories + TLC; replay of fault histories into the real persistence cycle; TLC trace validation'),
     'C09': dict(engine='Slice', category='model_checking', design_ref='DESIGN.md §4 C09',
                 text='Slice.tla defines kept cells and bin positions of unit-step slices and of squeeze; TLC enumerates the whole '
                      'small domain (all 1-d slices with None/negative/out-of-range bounds, 2-d products, all squeeze shapes), checks '
@@ -19,6 +52,8 @@ CHECKS = {
 }
 
 ENGINES = {
+    'Sched': dict(path='specs/Sched.tla', kind_free_text='TLA+ spec of the queue backend (master, workers, queue, condition variable, environment) + SchedMC.tla (configuration spaces) + SchedTrace.tla (trace validation, strict/observer); harness/detsched.py (deterministic scheduler), schedrun.py (probes, projection), conf_sched.py'),
+    'Runs': dict(path='specs/Runs.tla', kind_free_text='TLA+ spec of histories of runs with persistence and faults + RunsMC.tla + RunsTrace.tla; harness/conf_runs.py'),
     'Slice': dict(path='specs/Slice.tla', kind_free_text='TLA+ function-like spec (Init enumerates inputs, Eval computes output) + SliceTrace.tla; harness/conf_slice.py'),
 }
 
